@@ -850,6 +850,13 @@ func (f *frame) applyContract(at ssa.Instruction, ct *Contract, args []T, st *St
 			e.assume(implies(st.cond, t))
 			continue
 		}
+		if ct.Trusted && (ct.Fn == nil || ct.Fn.Pkg == nil || !strings.HasPrefix(ct.Fn.Pkg.Pkg.Path(), modPath)) && r.Tags == nil && f.recoveredAt(at) {
+			// a library function whose precondition stands for "panics otherwise", called where a deferred recover()
+			// catches the panic: the caller still returns normally
+			e.note("panics recovered by a deferred recover() in " + relName(f.root.fn) + " are not obligations")
+			e.assume(implies(st.cond, t))
+			continue
+		}
 		e.addOb("pre", short+":"+r.Text+"|"+a, tags, pos, st.cond, t)
 	}
 	if f.root.nopanic && !ct.NoPanic && !ct.Trusted && !ct.IsIface {
